@@ -8,6 +8,7 @@ import (
 
 	"github.com/jamf/regatta/internal/verif"
 	"github.com/jamf/regatta/storage/kv"
+	"github.com/lni/dragonboat/v4"
 	"go.uber.org/zap"
 )
 
@@ -29,6 +30,19 @@ func (s *vhHookStore) Get(key string) (kv.Pair, error) {
 
 func vhManagerOn(st store, node uint64) *Manager {
 	return &Manager{store: st, cfg: Config{NodeID: node}, log: zap.NewNop().Sugar(), closed: make(chan struct{}), readyChan: make(chan struct{})}
+}
+
+// VHManager: a Manager over the given store and NodeHost (for harnesses of other packages).
+func VHManager(st *kv.RaftStore, nh *dragonboat.NodeHost, node uint64) *Manager {
+	m := vhManagerOn(st, node)
+	m.nh = nh
+	return m
+}
+
+// VHCatalogue registers table `name` with shard id `id` in the store's state machine.
+func VHCatalogue(lf *kv.LFSM, name string, id uint64, ver uint64) {
+	b, _ := json.Marshal(&Table{Name: name, ClusterID: id})
+	kv.VHPutRaw(lf, kv.Pair{Key: storedTableName(name), Value: string(b), Ver: ver})
 }
 
 const vhLeaseKey = "/tables/t/lease"
